@@ -10,54 +10,57 @@ From Bfe Require Import lib.Val lib.Bytes model.Http1Req model.Http1Write proofs
 Import ListNotations.
 Open Scope Z_scope.
 
-(* Headline (guarded): for EVERY accepted request r that is safe (method is a token; request-target non-empty
+(* Round trip: for EVERY accepted request r that is safe (method is a token; request-target non-empty
    without SP/CTL; Host without CR/LF; every forwarded field name a token) and well-formed (header keys in
    canonical form as the frontends store them; body absent, or Content-Length n with exactly n bytes,
-   0 < n < 10^80, or chunked with every chunk shorter than 16^16 bytes), the bytes written to the backend parse, with the strict reference parser, as exactly one
-   request, and it is the accepted one: same method, target, Host, same forwarded fields in key order with
-   sanitised values, same body; nothing follows it.  No field value whatsoever (CR, LF, NUL, ...) can add
-   fields or messages. *)
+   0 < n < 10^80, or chunked with every chunk shorter than 16^16 bytes), the bytes written to the backend
+   parse, with the strict reference parser, as exactly one request, and it is the accepted one: same method,
+   target, Host, same forwarded fields in key order with sanitised values, same body; nothing follows it.
+   No field value whatsoever (CR, LF, NUL, ...) can add fields or messages. *)
 Theorem C25_one_wellformed_request : forall r,
   safe_request r = true -> wf_wreq r = true ->
   strict_parse (write_request r) = Some (normalize r).
 Proof. exact C25_one_wellformed_request_lemma. Qed.
 Print Assumptions C25_one_wellformed_request.
 
-(* The same through the executable predicates the harness evaluates on the implementation's output. *)
-Theorem C25_prop_of_model : forall i r,
-  accepted i = inr r -> safe_request r = true -> wf_wreq r = true ->
-  prop_C25 i (run_C25 i) = true.
-Proof. exact C25_prop_of_model_lemma. Qed.
-Print Assumptions C25_prop_of_model.
-
-(* Every frontend (HTTP/1 ReadRequest, HTTP/2, SPDY models) stores header keys in canonical form, so the
-   canonical-key part of wf_wreq holds for every accepted request ... *)
+(* Every frontend (HTTP/1 ReadRequest, HTTP/2, SPDY models) stores header keys in canonical form. *)
 Theorem C25_frontends_canonical : forall i r,
   accepted i = inr r -> forallb canon_ok (w_fields r) = true.
 Proof. exact frontends_canonical. Qed.
 Print Assumptions C25_frontends_canonical.
 
-(* ... hence: for every input on every frontend whose accepted request is safe and whose body is absent,
-   Content-Length framed (0 < n < 10^80, n bytes) or chunked (chunks < 16^16 bytes), the property holds
-   of the modelled output. *)
-Theorem C25_prop_of_model_strong : forall i r,
-  accepted i = inr r -> safe_request r = true -> body_ok (w_body r) = true ->
-  prop_C25 i (run_C25 i) = true.
-Proof. exact C25_prop_of_model_strong_lemma. Qed.
-Print Assumptions C25_prop_of_model_strong.
+(* After the repairs (/repo 5ba9a71^..d4ea2c7: Request.write validates method, request-target, Host and
+   field names before writing anything) a request that is not safe is never written: the model of
+   Request.Write returns the error code and no bytes. *)
+Theorem C25_unsafe_refused : forall i r,
+  accepted i = inr r -> safe_request r = false -> run_C25 i = VL [VZ 2; VB []].
+Proof. exact C25_unsafe_refused_lemma. Qed.
+Print Assumptions C25_unsafe_refused.
 
-(* The frontends do NOT establish safe_request: one accepted-and-written witness per class
-   (frontend*10 + component; 1 method, 2 target, 3 host, 4 field name).  HTTP/1: method "G(T", Host with a
-   bare CR, name "X A".  HTTP/2: :method "GET /x", :path "/a b".  SPDY: CR LF in :method, SP in :path,
-   CR LF in :host, CR LF in a header name.  Each confirmed on the real code (corpus/C25/witness.case). *)
-Theorem C25_frontend_establishes_safe_refuted :
-  refuted25 w11 11 /\ refuted25 w13 13 /\ refuted25 w14 14 /\ refuted25 w21 21 /\ refuted25 w22 22 /\
-  refuted25 w31 31 /\ refuted25 w32 32 /\ refuted25 w33 33 /\ refuted25 w34 34.
-Proof. exact C25_refuted_lemma. Qed.
-Print Assumptions C25_frontend_establishes_safe_refuted.
+(* CENTRAL THEOREM (full, no finding class left: kf_C25 = 0 everywhere): for every well-formed input on
+   every frontend -- HTTP/1 byte stream, HTTP/2 field list, SPDY pair list; wf_C25 = the value is
+   well-shaped and the accepted request's body, if any, is one the model frames -- the model's output
+   satisfies the property the harness evaluates on the implementation: either nothing is written
+   (rejected by the frontend, refused by Request.write) or exactly the accepted request is written. *)
+Theorem C25_central : forall i,
+  wf_C25 i = true -> kf_C25 i = 0 -> prop_C25 i (run_C25 i) = true.
+Proof. exact C25_central_lemma. Qed.
+Print Assumptions C25_central.
+
+(* The nine former witnesses (HTTP/1 method "G(T", Host with bare CR, name "X A"; HTTP/2 :method "GET /x",
+   :path "/a b"; SPDY CR LF in :method, SP in :path, CR LF in :host, CR LF in a header name) now produce no
+   bytes at all: rejected by ReadRequest (code 1) or refused by Request.write (code 2). *)
+Theorem C25_fixed :
+  refused w11 1 /\ refused w13 2 /\ refused w14 1 /\ refused w21 2 /\ refused w22 2 /\
+  refused w31 2 /\ refused w32 2 /\ refused w33 2 /\ refused w34 2.
+Proof. exact C25_fixed_lemma. Qed.
+Print Assumptions C25_fixed.
 
 (* Non-vacuity: per frontend a safe, well-formed accepted request (HTTP/1 POST with a 3-byte body and a
    value containing a bare CR; HTTP/2 with two cookies and an HTAB value; SPDY with a NUL-separated value
-   containing CR LF "Evil: 1"; HTTP/1 chunked POST with two chunks and a trailer) for which the written bytes satisfy the property. *)
+   containing CR LF "Evil: 1"; HTTP/1 chunked POST with two chunks and a trailer) for which the written
+   bytes satisfy the property; each also satisfies wf_C25. *)
 Example C25_nonvacuous : nonvac ok1 /\ nonvac ok2 /\ nonvac ok3 /\ nonvac ok4.
 Proof. exact C25_nonvacuous_lemma. Qed.
+Example C25_wf_examples : wf_C25 ok1 = true /\ wf_C25 ok2 = true /\ wf_C25 ok3 = true /\ wf_C25 ok4 = true /\ wf_C25 w31 = true.
+Proof. exact C25_wf_examples_lemma. Qed.
